@@ -174,8 +174,8 @@ def run_spec(chk, facts):
                        "%s in %s: %s: %s" % (suffix.split("::")[-1], fname.split("::")[-1], det, ok),
                        where=f.where(sites[0][1][1].get("l")), fn=f.name, key="%s:%s:%s" % (rule_m, fname, suffix),
                        sample={"fn": short(f.name), "check": suffix, "scope": arg if isinstance(arg, str) else list(arg)})
-    chk.floor(rule_h, "honoured checks", nh, 30)
-    chk.floor(rule_m, "must-pass obligations", nm, 22)
+    chk.floor(rule_h, "honoured checks", nh, 27)
+    chk.floor(rule_m, "must-pass obligations", nm, 20)
 
 
 def euids_traversal(chk, facts):
@@ -316,7 +316,7 @@ def api_entries(chk, facts):
         n += 1
         chk.ob(rule, short(name).split("api::")[-1], bool(real), "the schema parameter of %s reaches %s" % (short(name), [short(c).split("::")[-1] for c in real][:3] if real else "no worker function: the schema is ignored"),
                where=f.where(), fn=name, key="%s:%s" % (rule, name), sample={"fn": short(name), "consumers": [short(c) for c in real][:4]})
-    chk.floor(rule, "public entry points with a schema parameter", n, 18)
+    chk.floor(rule, "public entry points with a schema parameter", n, 17)
     # the JSON parser builds the store with its own schema (validation happens on construction of the store)
     g = facts.fn("cedar_policy_core::entities::json::entities::EntityJsonParser::<'_, '_, S>::parse_ejsons")
     if g is None:
